@@ -19,6 +19,16 @@ CHECKS = {
         "Trusted: CPython ints; the day-number line as the model. Internal entry LocalDate._ctor(days_since_epoch=, calendar=) is used for the day->date direction (it is what with_calendar / plus_days use).",
         "DESIGN.md §2 C01",
     ),
+    "C02": (
+        "exploration",
+        "differential testing against an independent reference implementation of the published calendar algorithms and datetime.date (enumerated domain)",
+        "Every year table and month start of the 16 arithmetic calendars, ISO against datetime.date over all 3652059 "
+        "ordinals, and a day sample (quick) / every day (thorough, exhaustive=true) are compared with ref/calendars.py "
+        "(Reingold-Dershowitz arithmetic from documented epochs) through LocalDate construction, with_calendar both "
+        "ways, table queries and day_of_week. Catches a self-consistent but shifted calendar, which C01 cannot.",
+        "Trusted: ref/calendars.py (self-tested against datetime and well-known correspondences at start-up), CPython datetime.",
+        "DESIGN.md §2 C02",
+    ),
     "C03": (
         "exploration",
         "Hypothesis property-based testing against an int reference model + exhaustive enumeration of Offset",
